@@ -16,7 +16,7 @@ for id in "$@"; do
   if [ "$base_demo" = "0" ] && [ "$mut_demo" != "0" ] && echo "$tests" | grep -q "224 passed" && ! echo "$tests" | grep -qE "[0-9]+ (failed|error)"; then ok=yes; fi
   echo "$id/$k: demo_unpatched=$base_demo demo_patched=$mut_demo tests='$tests' keep=$ok"
   if [ $ok = yes ]; then
-    dest=/verif/seeded/${id}_$k; mkdir -p $dest
+    dest=/verif/seeded/${id}_${SUFFIX}$k; mkdir -p $dest
     cp $d/patch.diff $d/demo.py $dest/
     /venv/bin/python - "$d/meta.json" "$dest/meta.json" "$tests" "$base_demo" "$mut_demo" <<'PY'
 import json,sys
